@@ -139,6 +139,30 @@ func (m *c07Machine) apply(op c07Op) error {
 		}
 		m.Labels[op.Kind+"-ok"] = true
 		return m.compareOthers(op.Who%len(m.lenders), before, rb, sb, op.Kind+"("+amt.String()+")")
+	case "emptyvault":
+		// every lender withdraws everything (possible only while nothing is lent out): the vault is emptied, and
+		// whatever is bonded next re-creates it
+		for i, l := range m.lenders {
+			sh := m.shares(l)
+			if !sh.IsPositive() {
+				continue
+			}
+			before, rb, sb := m.snapshotOthers(i)
+			err, pan := execMsg(w, m.ctx, &sstypes.MsgUnbond{Creator: l.Addr.String(), Amount: sh})
+			if pan {
+				return fmt.Errorf("unbond(%s) panicked: %v", sh, err)
+			}
+			if err != nil {
+				return nil
+			}
+			if verr := m.compareOthers(i, before, rb, sb, "unbond(all)"); verr != nil {
+				return verr
+			}
+		}
+		if m.supply().IsZero() {
+			m.Labels["vault-emptied"] = true
+		}
+		return nil
 	case "roundtrip":
 		// on a branch: bond amt, then immediately unbond exactly the minted shares
 		l := m.lenders[op.Who%len(m.lenders)]
@@ -358,7 +382,9 @@ func TestC07(t *testing.T) {
 		for i := 0; i < n; i++ {
 			var op c07Op
 			who := UniformDraw(rt, "who", 4)
-			switch UniformDraw(rt, "op", 12) {
+			switch UniformDraw(rt, "op", 13) {
+			case 12:
+				op = c07Op{Kind: "emptyvault"}
 			case 0, 1, 2:
 				op = c07Op{Kind: "bond", Who: who, Amount: amount("bond", m.tv()).String()}
 			case 3, 4:
